@@ -34,6 +34,11 @@ type inRef struct {
 	height int32
 	cb     bool
 	bad    bool
+	// BIP68: explicit sequence number (hasSeq) and, for world outputs, the past median time of the
+	// block before the one holding the output (only carried when a time-based lock needs it)
+	seq     uint32
+	hasSeq  bool
+	mtpPrev int64
 }
 
 type outSpec struct {
@@ -56,6 +61,7 @@ type txSpec struct {
 	sc   int64
 	hw   bool
 	so   bool
+	ver  int32 // transaction version (0 = 1)
 }
 
 type scenario struct {
@@ -104,6 +110,9 @@ func (r inRef) String() string {
 	switch r.kind {
 	case 'u':
 		s = fmt.Sprintf("u%d:%d:%d:%s", r.k, r.val, r.height, b2s(r.cb))
+		if r.mtpPrev != 0 {
+			s += fmt.Sprintf(":%d", r.mtpPrev)
+		}
 	case 'g':
 		s = fmt.Sprintf("g%d", r.k)
 	case 'p':
@@ -112,6 +121,9 @@ func (r inRef) String() string {
 		s = fmt.Sprintf("x%d", r.k)
 	case 'c':
 		s = "c"
+	}
+	if r.hasSeq {
+		s += fmt.Sprintf("~%d", r.seq)
 	}
 	if r.bad {
 		s += "!"
@@ -136,8 +148,12 @@ func (t txSpec) String() string {
 	if os == "" {
 		os = "-"
 	}
-	return fmt.Sprintf("%s/%s/%s/%d/%d/%d/%d/%d/%s/%s", strings.Join(ins, "+"), os, lock,
+	out := fmt.Sprintf("%s/%s/%s/%d/%d/%d/%d/%d/%s/%s", strings.Join(ins, "+"), os, lock,
 		t.fee, t.fpk, t.prio, t.wt, t.sc, b2s(t.hw), b2s(t.so))
+	if t.ver > 1 {
+		out += fmt.Sprintf("/%d", t.ver)
+	}
+	return out
 }
 
 func (s *scenario) line() string {
@@ -191,6 +207,11 @@ func parseIn(s string) inRef {
 		r.bad = true
 		s = s[:len(s)-1]
 	}
+	if i := strings.IndexByte(s, '~'); i >= 0 {
+		r.seq = uint32(puint(s[i+1:]))
+		r.hasSeq = true
+		s = s[:i]
+	}
 	if s == "" {
 		panic("bad input ref")
 	}
@@ -199,8 +220,11 @@ func parseIn(s string) inRef {
 	switch r.kind {
 	case 'u':
 		f := strings.Split(rest, ":")
-		if len(f) != 4 {
+		if len(f) != 4 && len(f) != 5 {
 			panic("bad u ref")
+		}
+		if len(f) == 5 {
+			r.mtpPrev = pint(f[4])
 		}
 		r.k = int(pint(f[0]))
 		r.val = pint(f[1])
@@ -227,10 +251,13 @@ func parseIn(s string) inRef {
 
 func parseTxSpec(s string) txSpec {
 	f := strings.Split(s, "/")
-	if len(f) != 10 {
+	if len(f) != 10 && len(f) != 11 {
 		panic("bad tx token")
 	}
 	var t txSpec
+	if len(f) == 11 {
+		t.ver = int32(pint(f[10]))
+	}
 	for _, x := range strings.Split(f[0], "+") {
 		t.ins = append(t.ins, parseIn(x))
 	}
@@ -355,7 +382,7 @@ func parseScenario(f []string) *scenario {
 // chainTimes returns the block timestamps (index = height) of the case's best
 // chain after the optional reorganisation.
 func (s *scenario) chainTimes() []int64 {
-	ts := []int64{0} // genesis time is irrelevant: never among the last 11 once height >= 11
+	ts := []int64{regtestGenesisTime}
 	for h := 1; h <= worldBlocks; h++ {
 		ts = append(ts, worldT0+worldSpacing*int64(h))
 	}
@@ -369,6 +396,21 @@ func (s *scenario) chainTimes() []int64 {
 		ts = append(ts, worldT0+worldSpacing*int64(len(ts))+13)
 	}
 	return ts
+}
+
+// mtpAt is the past median time of the block at the given height of the case's chain.
+func (s *scenario) mtpAt(height int) int64 {
+	ts := s.chainTimes()
+	if height < 0 {
+		height = 0
+	}
+	n := 11
+	if height+1 < n {
+		n = height + 1
+	}
+	last := append([]int64{}, ts[height+1-n:height+1]...)
+	sort.Slice(last, func(i, j int) bool { return last[i] < last[j] })
+	return last[len(last)/2]
 }
 
 func (s *scenario) reorged() bool { return s.roK > worldBlocks-s.roF }
@@ -429,7 +471,11 @@ func (s *scenario) buildPool(w *world) *builtPool {
 		}
 		state[i] = 1
 		t := s.txs[i]
-		tx := wire.NewMsgTx(1)
+		ver := int32(1)
+		if t.ver > 1 {
+			ver = t.ver
+		}
+		tx := wire.NewMsgTx(ver)
 		prevScripts := make([][]byte, len(t.ins))
 		prevVals := make([]int64, len(t.ins))
 		kinds := make([]byte, len(t.ins))
@@ -463,6 +509,9 @@ func (s *scenario) buildPool(w *world) *builtPool {
 			seq := uint32(wire.MaxTxInSequenceNum)
 			if !t.allMax && k == 0 {
 				seq = seqNonFinal
+			}
+			if r.hasSeq {
+				seq = r.seq
 			}
 			tx.AddTxIn(&wire.TxIn{PreviousOutPoint: op, Sequence: seq})
 		}
